@@ -54,6 +54,7 @@ type vfStreamEnd struct {
 	seg      func(avail int) int // how many bytes one Read of this end may return
 	readExpired, writeExpired bool
 	nReads, nWrites int
+	addr    string
 	onWrite func(n int) // called (unlocked) before each Write is processed: fault/cancel injection
 	onRead  func(n int)
 }
@@ -219,6 +220,9 @@ func (a vfAddr) Network() string { return "vf" }
 func (a vfAddr) String() string  { return a.s }
 
 func (e *vfStreamEnd) LocalAddr() net.Addr {
+	if e.addr != "" {
+		return vfAddr{e.addr}
+	}
 	if e.idx == 0 {
 		return vfAddr{"10.0.0.1:1000"}
 	}
